@@ -89,7 +89,7 @@ def panicSites : List PanicSite := [
   ⟨"analysis/follow.rs", "update_production_equations", "unwrap", 1, "first/follow", .theorem, ["ParolModel.Tm.abs_ktuple_build"],
     "builder result with k and max_terminal_index set"⟩,
   ⟨"analysis/k_decision.rs", "FirstCache::get", "index", 3, "decision", .open, [],
-    "`self.0[k]` on an array of MAX_K + 1 entries: panics for k > 10. `Builder::max_lookahead` rejects k > MAX_K, the public function `calculate_lookahead_dfas(cfg, max_k)` does not (finding F29). No theorem: the model's caches are association lists"⟩,
+    "`self.0[k]` on an array of MAX_K + 1 entries: panics for k > 10. `Builder::max_lookahead` rejects k > MAX_K, the public function `calculate_lookahead_dfas(cfg, max_k)` does not (finding F28). No theorem: the model's caches are association lists"⟩,
   ⟨"analysis/k_decision.rs", "FollowCache::get", "index", 3, "decision", .open, [],
     "as `FirstCache::get`"⟩,
   ⟨"analysis/k_decision.rs", "calculate_lookahead_dfas", "index", 1, "decision", .open, [],
@@ -267,7 +267,7 @@ def chain : List ChainLink := [
   ⟨"names", "utils::generate_name",
    "none",
    some "ParolModel.Panic.stage_total_generate_name", some "ParolModel.Panic.stage_total_generate_name",
-   "the counter is an unbounded Nat in the model: `num += 1` overflows for a numeric suffix of 2^64-1 with overflow checks on (finding F27)"⟩,
+   "the counter is an unbounded Nat in the model: `num += 1` overflows for a numeric suffix of 2^64-1 with overflow checks on (finding F26)"⟩,
   ⟨"well-formedness", "check_and_transform_grammar_with_ignored: non_productive_non_terminals, unreachable_non_terminals, detect_left_recursive_non_terminals (+ Cfg::get_non_terminal_ordering, calculate_nullable_non_terminals)",
    "for the two functions that go through get_non_terminal_ordering: the start symbol has a production",
    some "ParolModel.Panic.stage_total_check", some "ParolModel.Panic.pre_established_ordering",
@@ -283,7 +283,7 @@ def chain : List ChainLink := [
   ⟨"terminals", "Terminals::new / KTupleBuilder / KTuplesBuilder (k_tuple.rs, k_tuples.rs)",
    "max_terminal_index = number of terminals + 5 ≤ 4094, k ≤ MAX_K, arguments are terminal indices of the grammar",
    some "ParolModel.Panic.stage_total_terminals", none,
-   "NOT established: nothing limits the number of terminals (finding F10, `f10_witness`); k ≤ MAX_K is checked by Builder::max_lookahead only, not by the public function calculate_lookahead_dfas (finding F29)"⟩,
+   "NOT established: nothing limits the number of terminals (finding F10, `f10_witness`); k ≤ MAX_K is checked by Builder::max_lookahead only, not by the public function calculate_lookahead_dfas (finding F28)"⟩,
   ⟨"first/follow", "first_k, follow_k (through FirstCache/FollowCache)",
    "no terminal 0 on a right-hand side, every non-terminal productive and reachable, no (hidden) left recursion — the class in which C06 proves the sets exact",
    none, some "ParolModel.Panic.pre_established_analysis",
